@@ -374,6 +374,17 @@ Fixpoint inst_tys (c : cond) : option (list ty) :=
   | _ => None
   end.
 
+(* the types excluded by `not isinstance(..)`, possibly `not isinstance(v, A) and not isinstance(v, B)` *)
+Fixpoint ninst_tys (c : cond) : option (list ty) :=
+  match c with
+  | CNot x => inst_tys x
+  | CAnd a b => match ninst_tys a, ninst_tys b with
+                | Some x, Some y => Some (x ++ y)
+                | _, _ => None
+                end
+  | _ => None
+  end.
+
 Definition subset_ty (a b : list ty) : bool := forallb (fun t => existsb (ty_eqb t) b) a.
 Definition same_tys (a b : list ty) : bool := subset_ty a b && subset_ty b a.
 
@@ -422,14 +433,27 @@ Definition kind_of_dom (d : dom) : ekind :=
   | DBuilt => EBUILD
   end.
 
+(* `v < lo or v > hi` (either order) *)
+Definition between_or (a b : cond) (lo hi : Q) : bool :=
+  match rel_of a, rel_of b with
+  | Some (Lt, TConst p), Some (Gt, TConst q) => Qeq_bool p lo && Qeq_bool q hi
+  | Some (Gt, TConst q), Some (Lt, TConst p) => Qeq_bool p lo && Qeq_bool q hi
+  | _, _ => false
+  end.
+
+(* `not (lo <= v and v <= hi)` (either order; also the chained `lo <= v <= hi`) *)
+Definition between_and (a b : cond) (lo hi : Q) : bool :=
+  match rel_of a, rel_of b with
+  | Some (Ge, TConst p), Some (Le, TConst q) => Qeq_bool p lo && Qeq_bool q hi
+  | Some (Le, TConst q), Some (Ge, TConst p) => Qeq_bool p lo && Qeq_bool q hi
+  | _, _ => false
+  end.
+
 Definition clause_ok (k : kctx) (c : clause) : bool :=
   ekind_eqb (c_kind c) (kind_of_dom (c_dom c)) &&
   match c_dom c with
   | DType ts =>
-      match c_cond c with
-      | CNot x => match inst_tys x with Some ts' => same_tys ts ts' | None => false end
-      | _ => false
-      end
+      match ninst_tys (c_cond c) with Some ts' => same_tys ts ts' | None => false end
   | DCallable =>
       match c_cond c with CNot CCallable => true | _ => false end
   | DCmp op _ | DCmpSelf op _ =>
@@ -441,12 +465,8 @@ Definition clause_ok (k : kctx) (c : clause) : bool :=
   | DBetween lo hi =>
       k_num k &&
       match c_cond c with
-      | COr a b =>
-          match rel_of a, rel_of b with
-          | Some (Lt, TConst p), Some (Gt, TConst q) => Qeq_bool p lo && Qeq_bool q hi
-          | Some (Gt, TConst q), Some (Lt, TConst p) => Qeq_bool p lo && Qeq_bool q hi
-          | _, _ => false
-          end
+      | COr a b => between_or a b lo hi
+      | CNot (CAnd a b) => between_and a b lo hi
       | _ => false
       end
   | DOneOf ss =>
@@ -499,6 +519,17 @@ Proof.
     rewrite existsb_app. destruct (existsb (has_type v) x); reflexivity.
 Qed.
 
+Lemma ninst_tys_eval : forall s v c ts, ninst_tys c = Some ts ->
+  eval s v c = Some (negb (existsb (has_type v) ts)).
+Proof.
+  intros s v c. induction c; intros ts' H; cbn in H; try discriminate.
+  - cbn. rewrite (inst_tys_eval s v c ts' H). reflexivity.
+  - destruct (ninst_tys c1) as [x|] eqn:E1; [|discriminate].
+    destruct (ninst_tys c2) as [y|] eqn:E2; [|discriminate].
+    inversion H; subst. cbn. rewrite (IHc1 x eq_refl), (IHc2 y eq_refl).
+    rewrite existsb_app. destruct (existsb (has_type v) x); reflexivity.
+Qed.
+
 Lemma rel_of_eval : forall s v c op t x y, rel_of c = Some (op, t) ->
   num_of v = Some x -> term_num s v t = Some y -> eval s v c = Some (cmp_eval op x y).
 Proof.
@@ -545,6 +576,36 @@ Proof.
     rewrite (H2 x Hy) in A. discriminate.
 Qed.
 
+Lemma between_or_sound : forall s v a b lo hi x, between_or a b lo hi = true -> num_of v = Some x ->
+  eval s v (COr a b) = Some (negb (xle (Fin lo) x && xle x (Fin hi))).
+Proof.
+  intros s v a b lo hi x H Hx. unfold between_or in H.
+  destruct (rel_of a) as [[opa ta]|] eqn:Ra; [|discriminate].
+  destruct (rel_of b) as [[opb tb]|] eqn:Rb; [|destruct opa; destruct ta; discriminate].
+  destruct opa; try discriminate; destruct ta; try discriminate;
+    destruct opb; try discriminate; destruct tb; try discriminate;
+    apply andb_prop in H; destruct H as [H1 H2]; cbn [eval];
+    rewrite (rel_of_eval s v a _ _ x (Fin q) Ra Hx eq_refl);
+    rewrite (rel_of_eval s v b _ _ x (Fin q0) Rb Hx eq_refl); cbn [cmp_eval];
+    rewrite !xlt_negb_xle; rewrite <- (Qeq_bool_Fin_le_l _ _ x H1), <- (Qeq_bool_Fin_le_r _ _ x H2);
+    repeat match goal with |- context [xle ?a ?b] => destruct (xle a b) end; reflexivity.
+Qed.
+
+Lemma between_and_sound : forall s v a b lo hi x, between_and a b lo hi = true -> num_of v = Some x ->
+  eval s v (CNot (CAnd a b)) = Some (negb (xle (Fin lo) x && xle x (Fin hi))).
+Proof.
+  intros s v a b lo hi x H Hx. unfold between_and in H.
+  destruct (rel_of a) as [[opa ta]|] eqn:Ra; [|discriminate].
+  destruct (rel_of b) as [[opb tb]|] eqn:Rb; [|destruct opa; destruct ta; discriminate].
+  destruct opa; try discriminate; destruct ta; try discriminate;
+    destruct opb; try discriminate; destruct tb; try discriminate;
+    apply andb_prop in H; destruct H as [H1 H2]; cbn [eval];
+    rewrite (rel_of_eval s v a _ _ x (Fin q) Ra Hx eq_refl);
+    rewrite (rel_of_eval s v b _ _ x (Fin q0) Rb Hx eq_refl); cbn [cmp_eval];
+    rewrite <- (Qeq_bool_Fin_le_l _ _ x H1), <- (Qeq_bool_Fin_le_r _ _ x H2);
+    repeat match goal with |- context [xle ?a ?b] => destruct (xle a b) end; reflexivity.
+Qed.
+
 (* one clause: under the facts established so far, the condition fires exactly outside the documented domain
    and never raises anything else *)
 Lemma clause_ok_sound : forall k c s v,
@@ -555,9 +616,8 @@ Proof.
   apply ekind_eqb_eq in Hk. split; [|exact Hk]. clear Hk.
   destruct (c_dom c) as [ts| |op q|lo hi|op a|a|n|ss|] eqn:D; cbn [in_dom].
   - (* DType *)
-    destruct (c_cond c) as [| | | | | |x| |]; try discriminate.
-    destruct (inst_tys x) as [ts'|] eqn:E; [|discriminate].
-    cbn. rewrite (inst_tys_eval s v x ts' E). cbn. rewrite (same_tys_existsb v ts ts' H). reflexivity.
+    destruct (ninst_tys (c_cond c)) as [ts'|] eqn:E; [|discriminate].
+    rewrite (ninst_tys_eval s v (c_cond c) ts' E). rewrite (same_tys_existsb v ts ts' H). reflexivity.
   - (* DCallable *)
     destruct (c_cond c) as [| | | | | |x| |]; try discriminate. destruct x; try discriminate. reflexivity.
   - (* DCmp *)
@@ -569,20 +629,9 @@ Proof.
     rewrite cmp_neg_eval. rewrite (Qeq_bool_cmp op q0 q x Ht). reflexivity.
   - (* DBetween *)
     apply andb_prop in H. destruct H as [Kn H]. destruct (Hn Kn) as [x Hx]. rewrite Hx.
-    destruct (c_cond c) as [| | | | | | | |a b]; try discriminate.
-    destruct (rel_of a) as [[opa ta]|] eqn:Ra; [|discriminate].
-    destruct (rel_of b) as [[opb tb]|] eqn:Rb; [|destruct opa; destruct ta; discriminate].
-    destruct opa; try discriminate; destruct ta; try discriminate;
-      destruct opb; try discriminate; destruct tb; try discriminate;
-      apply andb_prop in H; destruct H as [H1 H2]; cbn [eval];
-      rewrite (rel_of_eval s v a _ _ x (Fin q) Ra Hx eq_refl);
-      rewrite (rel_of_eval s v b _ _ x (Fin q0) Rb Hx eq_refl); cbn [cmp_eval].
-    + (* v < lo or v > hi *)
-      rewrite !xlt_negb_xle. rewrite <- (Qeq_bool_Fin_le_l _ _ x H1), <- (Qeq_bool_Fin_le_r _ _ x H2).
-      repeat match goal with |- context [xle ?a ?b] => destruct (xle a b) end; reflexivity.
-    + (* v > hi or v < lo *)
-      rewrite !xlt_negb_xle. rewrite <- (Qeq_bool_Fin_le_l _ _ x H1), <- (Qeq_bool_Fin_le_r _ _ x H2).
-      repeat match goal with |- context [xle ?a ?b] => destruct (xle a b) end; reflexivity.
+    destruct (c_cond c) as [| | | | | |y|y1 y2|a b]; try discriminate.
+    + destruct y as [| | | | | |y|a b|a b]; try discriminate. exact (between_and_sound s v a b lo hi x H Hx).
+    + exact (between_or_sound s v a b lo hi x H Hx).
   - (* DCmpSelf *)
     apply andb_prop in H. destruct H as [Kn H]. destruct (Hn Kn) as [x Hx]. rewrite Hx.
     cbn in Hst. destruct (self_num s a) as [y|] eqn:Sa; [|discriminate].
@@ -801,9 +850,17 @@ Definition probe_values (g : guard) : list pyval := base_probes ++ flat_map arou
 Definition pre_state (g : guard) : state :=
   match g_pre g with Some (a, x) => [(a, VStr x)] | None => [] end.
 
+Definition stagger (ws : list pyval) (selfs : list string) : state :=
+  map (fun aw => (fst aw, snd aw)) (combine selfs ws).
+
 Definition probe_states (g : guard) : list state :=
   map (fun w => map (fun a => (a, w)) (guard_selfs g) ++ pre_state g)
-      [VInt 0; VInt 1; VInt 3; VFloat (Fin (1 # 2))].
+      [VInt 0; VInt 1; VInt 3; VFloat (Fin (1 # 2))] ++
+  (* companions holding different values, so that a guard reading the wrong companion is told apart *)
+  map (fun ws => stagger ws (guard_selfs g) ++ pre_state g)
+      [[VInt 0; VInt 3; VInt 1; VInt 2; VInt 0; VInt 3];
+       [VInt 3; VInt 0; VInt 2; VInt 1; VInt 3; VInt 0];
+       [VFloat (Fin (1 # 2)); VInt 1; VInt 0; VInt 3; VInt 1; VInt 0]].
 
 Definition disagrees (g : guard) (s : state) (v : pyval) : bool :=
   state_ok g s && pre_holds g s &&
